@@ -424,6 +424,10 @@ func evalTG(c *Ctx, cs *TGCase, vr map[string]*gen.VRes, props map[string]bool) 
 	}
 	for _, v := range variants {
 		r := vr[v.Name]
+		if !r.Built && !looksLikeLanguageError(v, r.BuildErr) {
+			c.Infra("variant %s: toolchain failure that is not a compile/load diagnostic: %s", v.Name, clip(r.BuildErr, 400))
+			return out
+		}
 		if !r.Built {
 			add("C16", v.Name, nil, "variant %s: generated file does not build/load:\n%s", v.Name, clip(r.BuildErr, 1200))
 			if nBuilt > 0 && looksLikeLanguageError(v, r.BuildErr) {
